@@ -301,6 +301,18 @@ def getitem (offset : Nat) (a b : NT) : Option NT :=
         | none => XR.nan⟩
     else none
 
+/-! ### Uninterpreted pointwise functions (exp, log, sigmoid, sqrt, tanh, … : `Tensor.eager_unary`)
+
+  `Tensor.eager_unary(op)` is `Tensor(op(self.data), self.inputs, dtype)`: the numpy scalar function
+  is applied entrywise and nothing else changes.  The scalar function itself is not modelled: it is a
+  PARAMETER `φ : XR → XR`, and everything structural (inputs, alignment, broadcasting, reductions of
+  the result) is proved for every `φ` (Props/C01/Phi.lean). -/
+
+def mapData (φ : XR → XR) (a : NT) : NT := ⟨a.inputs, a.shape, fun idx => φ (a.data idx)⟩
+
+/-- Entrywise application on a semantic value. -/
+def semMap (φ : XR → XR) (s : Sem) : Sem := ⟨s.shape, fun i => φ (s.get i)⟩
+
 /-! ### Operations on the output (event) axes: eager_reduction_tensor, eager_reshape_tensor, eager_getslice_tensor
 
   These act on every batch row alike (`op(arg.data, axis=negative axes)`, `data.reshape(batch_shape + shape)`,
@@ -322,6 +334,10 @@ def mapRows (f : Sem → Option Sem) (a : NT) : Option NT :=
 
 /-- eager_reshape_tensor (without the `arg.shape == shape` shortcut, which returns the same value). -/
 def reshape (newShape : List Nat) (a : NT) : Option NT := mapRows (fun s => s.reshape newShape) a
+
+/-- eager_reshape_tensor WITH its shortcut `if arg.shape == shape: return arg`. -/
+def reshapeS (newShape : List Nat) (a : NT) : Option NT :=
+  if a.shape == newShape then some a else reshape newShape a
 
 /-- eager_getslice_tensor: basic indexing of the leading event axes. -/
 def getslice (items : List IdxItem) (a : NT) : Option NT := mapRows (fun s => s.getslice items) a
@@ -594,6 +610,41 @@ mutual
       | some v, some vs => some ((k, v) :: vs)
       | _, _ => none
 end
+
+/-! ### Independent (diagonal extraction)
+
+  `Independent(fn, reals_var, bint_var, diag_var)` stays lazy until `reals_var` is bound; then
+  `Independent.eager_subs` evaluates `Subs(fn, diag_var -> value[bint_var]).reduce(ops.add, bint_var)`:
+  `value[bint_var]` (eager_getitem_tensor_variable) turns the leading event axis of the value into the
+  named input `bint_var`, the body is evaluated with `diag_var` bound to that tensor, and the named input
+  is summed out.  `pevalR` is eager evaluation of a binder-free pointwise body in which one real
+  variable is bound to a tensor. -/
+
+def pevalR (dv : Name) (w : NT) : Term → Option NT
+  | Term.var n _ => if n == dv then some w else none
+  | Term.num v _ => some (ofNumber v)
+  | Term.tensor inputs dom data => some (ofTensor inputs dom.shape data)
+  | Term.unary op a =>
+    match pevalR dv w a with
+    | some ra => unaryOp op ra
+    | none => none
+  | Term.binary op l r =>
+    if op.name == "getitem" then none else
+    match pevalR dv w l, pevalR dv w r with
+    | some a, some b => binary op.name a b
+    | _, _ => none
+  | _ => none
+
+def pevalIndependent (fn : Term) (rv bv dv : Name) (size : Nat) (v : NT) : Option NT :=
+  if dv == bv || v.names.contains dv || v.names.contains bv || v.names.contains rv then none else
+  match getitem 0 v (rangeNT bv 0 1 size) with
+  | none => none
+  | some w =>
+    match pevalR dv w fn with
+    | none => none
+    | some f =>
+      if f.names.contains dv || f.names.contains rv then none
+      else eagerReduce "add" [(bv, size)] f
 
 /-! ### Static typing of the core fragment
 
